@@ -24,10 +24,11 @@ import (
 	"time"
 )
 
-const (
-	goBin   = "go1.26.8"
-	repoDir = "/repo"
-)
+const goBin = "go1.26.8"
+
+// repoDir is the tree under test. VCHECK_REPO points a run at a scratch worktree instead
+// (sensitivity experiments only; the registered commands always use /repo).
+var repoDir = "/repo"
 
 var verifDir = "/verif"
 
@@ -258,7 +259,7 @@ func runChild(bin, wdir string, env []string, limit time.Duration, gomaxprocs in
 	cmd := exec.Command(bin, "-test.run", "^TestSim$", "-test.timeout", "0", "-test.count", "1")
 	cmd.Dir = wdir
 	cmd.Env = append(os.Environ(), env...)
-	cmd.Env = append(cmd.Env, "VSIM_OUT="+outp, "VSIM_DIR="+wdir, "GORACE=halt_on_error=1 exitcode=66",
+	cmd.Env = append(cmd.Env, "VSIM_OUT="+outp, "VSIM_DIR="+wdir, "VSIM_SHARED="+filepath.Join(filepath.Dir(wdir), "shared"), "GORACE=halt_on_error=1 exitcode=66",
 		fmt.Sprintf("GOMAXPROCS=%d", gomaxprocs), "GOTRACEBACK=single")
 	var errb bytes.Buffer
 	cmd.Stdout = nil
@@ -980,6 +981,10 @@ func cmdRun(args []string) int {
 		infra = append(infra, "no run completed")
 	}
 	evPath := filepath.Join(verifDir, "evidence", spec.ID+".json")
+	if repoDir != "/repo" {
+		// a sensitivity experiment on a scratch tree never overwrites the evidence of /repo
+		evPath = filepath.Join(os.TempDir(), "vcheck-evidence-"+spec.ID+".json")
+	}
 	os.MkdirAll(filepath.Dir(evPath), 0775)
 	data, _ := json.MarshalIndent(ev, "", " ")
 	os.WriteFile(evPath, data, 0644)
@@ -1222,6 +1227,9 @@ func main() {
 		if _, err := os.Stat(filepath.Join(wd, "cmd/vcheck")); err == nil {
 			verifDir = wd
 		}
+	}
+	if v := os.Getenv("VCHECK_REPO"); v != "" {
+		repoDir = v
 	}
 	if len(os.Args) < 2 {
 		fatal2("usage: vcheck run|replay|determinism ...")
